@@ -596,7 +596,15 @@ class HttpStreamSession:
         # Strip state token from user-visible metadata
         user_cm = strip_keys(ab.custom_metadata, STATE_KEY, CALL_STATE_KEY)
 
-        _drain_stream(reader)
+        # A process() call may log after emitting its data batch; those log
+        # batches follow the data batch in the response and must still reach
+        # on_log (the pipe transports deliver them on the next read).
+        while True:
+            try:
+                trailing, trailing_md = reader.read_next_batch_with_custom_metadata()
+            except StopIteration:
+                break
+            _dispatch_log_or_error(trailing, trailing_md, self._on_log)
         return AnnotatedBatch(batch=ab.batch, custom_metadata=user_cm)
 
     def _send_continuation(self, token: bytes) -> ValidatedReader:
